@@ -60,7 +60,7 @@ def main(argv):
         if spec.get("witnesses") and not a.no_witness:
             from . import witness
             wr = witness.run(spec["witnesses"], a.repo)
-            results = list(results) + [wr]
+            results = list(results) + list(wr)
         # pure-arithmetic engine / other extra engines
         for hook in spec.get("extra", []):
             hr = hook(a.repo, tier)
